@@ -60,7 +60,12 @@ class CodeWriter:
         Args:
             code (str): The code block to write (may be multiple lines).
         """
-        for line in code.splitlines():
+        # Split at "\n" only: str.splitlines() also breaks at U+2028, U+2029, U+0085, FF, VT ..., which are ordinary
+        # characters inside a Python string literal or comment (a wire key containing one would be cut in two)
+        lines = code.split("\n")
+        if lines and lines[-1] == "":
+            lines.pop()
+        for line in lines:
             self.write_line(line)
 
     def get_code(self) -> str:
